@@ -89,7 +89,16 @@ func (s *session) runV2(name string, op J) J {
 	c := s.c2(op)
 	cl := c.c
 	forced := client.ErrForcedFailure
-	res := func(err error) J { return J{"r": classify(err, forced)} }
+	res := func(err error) J {
+		r := J{"r": classify(err, forced)}
+		// surface rule (fix 35be8d0): an error that carries a DynamoDB code reaches the caller as a smithy.APIError
+		var ec errorCoder
+		var cd coder
+		if err != nil && !errors.As(err, &ec) && errors.As(err, &cd) {
+			r["raw_err"] = true
+		}
+		return r
+	}
 	table := aws.String(str(op, "table"))
 
 	switch name {
@@ -159,12 +168,19 @@ func (s *session) runV2(name string, op J) J {
 		}
 		return r
 	case "put":
-		_, err := cl.PutItem(ctx, &dynamodb.PutItemInput{TableName: table, Item: itemToV2(obj(op, "item")), ConditionExpression: pstr(op, "cond"), ExpressionAttributeNames: names(op), ExpressionAttributeValues: itemToV2(obj(op, "values")),
-			ReturnValuesOnConditionCheckFailure: types.ReturnValuesOnConditionCheckFailureAllOld})
+		pin := &dynamodb.PutItemInput{TableName: table, Item: itemToV2(obj(op, "item")), ConditionExpression: pstr(op, "cond"), ExpressionAttributeNames: names(op), ExpressionAttributeValues: itemToV2(obj(op, "values")),
+			ReturnValuesOnConditionCheckFailure: types.ReturnValuesOnConditionCheckFailureAllOld}
+		if b, ok := op["return_old"].(bool); ok && b {
+			pin.ReturnValues = types.ReturnValueAllOld
+		}
+		o, err := cl.PutItem(ctx, pin)
 		r := res(err)
 		var cf *types.ConditionalCheckFailedException
 		if errors.As(err, &cf) {
 			r["cf_item"] = itemFromV2(cf.Item)
+		}
+		if err == nil && o != nil && o.Attributes != nil {
+			r["item"] = itemFromV2(o.Attributes)
 		}
 		return r
 	case "get":
@@ -172,6 +188,7 @@ func (s *session) runV2(name string, op J) J {
 		r := res(err)
 		if o != nil {
 			r["item"] = itemFromV2(o.Item)
+			r["item_nil"] = o.Item == nil
 		}
 		return r
 	case "update":
